@@ -182,3 +182,21 @@ HARNESSES = [
     _h("c09m_map", h_map, "3-entry map with symbolic i64 keys (every relative order, equal keys included); both paths"),
     _h("c09m_nested", h_nested, "record > list > map > list, depth 4; both paths"),
 ]
+
+
+# ---- fields in declaration order: the front end decides it ----------------------------------------
+# The order of the fields of a record / variant case is fixed when the constructor is lowered
+# (tx3-lang), not in the Plutus Data conversion.  The corpus programs of C01 that write fields out of
+# declaration order, use a spread, or name variant cases are therefore run here as well: real
+# parse -> analyze -> lower (helper binary), then the back end from MIR, datum tree compared with the
+# declaration-ordered denotation.
+def _front(prog):
+    def h(ctx, tier, seed):
+        from harness import c01          # lazy: c01 imports this module
+        c01._mk(prog)(ctx, tier, seed)
+    return h
+
+
+for _p in ("p09_record_order", "p03_datum_spread"):
+    HARNESSES.append(_h("c09_front_end_" + _p, _front(_p), "corpus program %s (fields written out of declaration order / spread / variant cases) in 3 layouts through the real front end; values symbolic" % _p,
+                        crates=["tx3-tir", "tx3-cardano"], time_limit=900))
